@@ -139,6 +139,22 @@ pub enum Dl {
     Abs(i64),
 }
 
+/// Can the script run in a plain (non-async) input? Only operations that never await.
+pub fn script_is_sync(ops: &[Op]) -> bool {
+    ops.iter().all(|o| {
+        matches!(
+            o,
+            Op::Sched { .. } | Op::Cancel { .. } | Op::AutoDrop { .. } | Op::CloneCancel { .. } | Op::CancelDriver { .. } | Op::ReadTime
+        )
+    })
+}
+
+/// Events whose script never suspends are bound to the plain-method input for one message
+/// identifier out of two (the semantics are the same; the reference model is not concerned).
+pub fn use_sync_input(scripts: &[Vec<Op>], m: &Msg) -> bool {
+    m.id & 1 == 1 && scripts.get(m.script as usize).map_or(false, |s| script_is_sync(s))
+}
+
 /// Returns Pending once, after waking its own task.
 pub struct YieldOnce(pub bool);
 
@@ -711,11 +727,11 @@ impl Node {
             }
         }
         macro_rules! go {
-            ($d:expr) => {{
+            ($d:expr, $f:expr) => {{
                 match (period, keyed) {
-                    (None, None) => code(&cx.schedule_event($d, Node::on_event, c)),
+                    (None, None) => code(&cx.schedule_event($d, $f, c)),
                     (None, Some(s)) => {
-                        let r = cx.schedule_keyed_event($d, Node::on_event, c);
+                        let r = cx.schedule_keyed_event($d, $f, c);
                         let cd = code(&r);
                         if let Ok(k) = r {
                             if let Some(sl) = self.slots.get_mut(s as usize) {
@@ -727,14 +743,14 @@ impl Node {
                     (Some(p), None) => code(&cx.schedule_periodic_event(
                         $d,
                         Duration::from_nanos(p),
-                        Node::on_event,
+                        $f,
                         c,
                     )),
                     (Some(p), Some(s)) => {
                         let r = cx.schedule_keyed_periodic_event(
                             $d,
                             Duration::from_nanos(p),
-                            Node::on_event,
+                            $f,
                             c,
                         );
                         let cd = code(&r);
@@ -748,9 +764,25 @@ impl Node {
                 }
             }};
         }
-        match dl {
-            Dl::Rel(d) => go!(Duration::from_nanos(*d)),
-            Dl::Abs(t) => go!(to_time(*t)),
+        let sync = use_sync_input(&self.spec.scripts, &c);
+        match (dl, sync) {
+            (Dl::Rel(d), false) => go!(Duration::from_nanos(*d), Node::on_event),
+            (Dl::Abs(t), false) => go!(to_time(*t), Node::on_event),
+            (Dl::Rel(d), true) => go!(Duration::from_nanos(*d), Node::on_event_sync),
+            (Dl::Abs(t), true) => go!(to_time(*t), Node::on_event_sync),
+        }
+    }
+
+    /// Event input that is a plain (non-async) method: the same interpreter, for scripts that
+    /// never suspend (see `script_is_sync`). A keyed event bound to such an input must honour a
+    /// cancellation "up to the moment the model starts processing it" just like an async one.
+    pub fn on_event_sync(&mut self, m: Msg, cx: &mut Context<Self>) {
+        let fut = self.on_event(m, cx);
+        let mut fut = std::pin::pin!(fut);
+        let waker = std::task::Waker::noop();
+        let mut pcx = std::task::Context::from_waker(&waker);
+        if fut.as_mut().poll(&mut pcx).is_pending() {
+            panic!("harness: a script bound to the synchronous input suspended");
         }
     }
 
